@@ -10,16 +10,16 @@ end deposit
 
 namespace provider
 def ProviderKeyPrefix : Bytes := [0x10]
-def ActiveProviderKeyPrefix : Bytes := ProviderKeyPrefix ++ [0x01]
-def InactiveProviderKeyPrefix : Bytes := ProviderKeyPrefix ++ [0x02]
+def ActiveProviderKeyPrefix : Bytes := [0x10, 0x01]
+def InactiveProviderKeyPrefix : Bytes := [0x10, 0x02]
 def ActiveProviderKey (addr : Bytes) : Bytes := ActiveProviderKeyPrefix ++ lp addr
 def InactiveProviderKey (addr : Bytes) : Bytes := InactiveProviderKeyPrefix ++ lp addr
 end provider
 
 namespace node
 def NodeKeyPrefix : Bytes := [0x10]
-def ActiveNodeKeyPrefix : Bytes := NodeKeyPrefix ++ [0x01]
-def InactiveNodeKeyPrefix : Bytes := NodeKeyPrefix ++ [0x02]
+def ActiveNodeKeyPrefix : Bytes := [0x10, 0x01]
+def InactiveNodeKeyPrefix : Bytes := [0x10, 0x02]
 def NodeForInactiveAtKeyPrefix : Bytes := [0x11]
 def NodeForPlanKeyPrefix : Bytes := [0x12]
 def ActiveNodeKey (addr : Bytes) : Bytes := ActiveNodeKeyPrefix ++ lp addr
@@ -186,10 +186,6 @@ end mint
    mint: const ModuleName
    mint: const StoreKey
    notes:
-   provider: var ActiveProviderKeyPrefix is built by append, so the Go slice may have spare capacity and a later append(…) of few bytes can write into the shared backing array; modelled as a pure value
-   provider: var InactiveProviderKeyPrefix is built by append, so the Go slice may have spare capacity and a later append(…) of few bytes can write into the shared backing array; modelled as a pure value
-   node: var ActiveNodeKeyPrefix is built by append, so the Go slice may have spare capacity and a later append(…) of few bytes can write into the shared backing array; modelled as a pure value
-   node: var InactiveNodeKeyPrefix is built by append, so the Go slice may have spare capacity and a later append(…) of few bytes can write into the shared backing array; modelled as a pure value
    plan: var ActivePlanKeyPrefix is built by append, so the Go slice may have spare capacity and a later append(…) of few bytes can write into the shared backing array; modelled as a pure value
    plan: var InactivePlanKeyPrefix is built by append, so the Go slice may have spare capacity and a later append(…) of few bytes can write into the shared backing array; modelled as a pure value -/
 end Hub.Generated.Keys
